@@ -18,5 +18,6 @@ CONSTANTS
   StaleLocals = FALSE
   Orphans = {}
   LockViaParent = FALSE
+  NumberUpFront = TRUE
 PROPERTIES Terminates
 CHECK_DEADLOCK FALSE
